@@ -185,6 +185,16 @@ def build_graph(case, idmap=None, shift=None, negq=(), info_scale=1.0, split=Non
     sh = shift or (lambda what, j: 0)
     vs = []
     _bg[0] += 1
+    # a pose obtained from identity() is the caller's own object: scribbling over one must not reach anything the library does later
+    for cls in B.CLS_OF.values():
+        scratch = cls.identity()
+        scratch[:] = 99.0
+
+    def offset_pose(k, e, n):
+        t, r = e['toff'], tuple(e['roff'])
+        if not any(t) and r in ((), (1, 0, 1), (0, 0, 0, 1, 1)) and not (k == 'SE2' and sh('o', n)) and ('o', n) not in negq and _bg[0] % 2:
+            return B.CLS_OF[k].identity()
+        return B.pose(k, e['toff'], e['roff'], shift=sh('o', n) if k == 'SE2' else 0, negq=(('o', n) in negq))
     for j, v in enumerate(case['verts']):
         p = B.pose(v['k'], v['t'], v['r'], shift=sh('v', j) if v['k'] == 'SE2' else 0, negq=(('v', j) in negq))
         # (fixed flags are truthy values: every other graph passes ints 1 / 0, or a mix, instead of bools)
@@ -202,7 +212,7 @@ def build_graph(case, idmap=None, shift=None, negq=(), info_scale=1.0, split=Non
                 es.append(EdgeOdometry(list(ids), Wm, B.pose(k, e['tz'], e['rz'], shift=zsh, negq=(('z', n) in negq))))
             elif e['cls'] == 'lm':
                 k2 = case['verts'][e['vs'][1] - 1]['k']
-                es.append(EdgeLandmark(list(ids), Wm, B.pose(k2, e['tz']), B.pose(k, e['toff'], e['roff'], shift=sh('o', n) if k == 'SE2' else 0, negq=(('o', n) in negq)), offset_id=0))
+                es.append(EdgeLandmark(list(ids), Wm, B.pose(k2, e['tz']), offset_pose(k, e, n), offset_id=0))
             elif e['cls'] == 'prior':
                 es.append(G.PriorEdge(list(ids), Wm, B.pose(k, e['tz'], e['rz'], shift=zsh, negq=(('z', n) in negq))))
             elif e['cls'] == 'relpose':
@@ -215,6 +225,11 @@ def build_graph(case, idmap=None, shift=None, negq=(), info_scale=1.0, split=Non
                 raise ValueError(e['cls'])
     if edge_order is not None:
         es = [es[i] for i in edge_order(len(es))]
+    if _bg[0] % 3 == 0:
+        # History dimension: the edge objects were used before, in another Graph over other Vertex objects with the same ids (and other
+        # values); the new Graph must evaluate them on ITS vertices.
+        decoy = [Vertex(v.id, type(v.pose).identity(), fixed=not v.fixed) for v in vs]
+        Graph(es, decoy).calc_chi2()
     return Graph(es, vs)
 
 
